@@ -80,6 +80,24 @@ def run(ctx):
         ev += 1
         if not dom.relclose(ro * bo, want, 1e-12):
             bad("oil density times Bo is not stock-tank oil plus dissolved gas", dict(T=To, p=po, api=api, gg=gg, Rsi=rsi), dict(got=ro * bo, expected=want))
+        if k % 5 == 0:
+            # arrays that sweep across the bubble point (a PVT-table sweep): every entry must equal the scalar call
+            arr = np.array([0.3 * pb, 0.9 * pb, pb, 1.5 * pb, 2.4 * pb])
+            for order in (arr, arr[::-1].copy(), arr[:2], arr[2:]):
+                try:
+                    da = np.asarray(oil.density_Standing(To, order, api, gg, rsi), float)
+                    ba = np.asarray(oil.b_o_Standing(To, order, api, gg, rsi), float)
+                    ra = np.asarray(oil.solution_gor_Standing(To, order, api, gg, rsi), float)
+                except Exception as e:  # noqa: BLE001
+                    bad("oil density/FVF/GOR raise on a pressure array", dict(T=To, pressures=[float(x) for x in order], api=api, gg=gg, Rsi=rsi), repr(e)[:200])
+                    continue
+                ev += 1
+                ds = np.array([float(oil.density_Standing(To, float(x), api, gg, rsi)) for x in order])
+                wanta = 62.37 * 141.5 / (131.5 + api) + 0.0136 * gg * ra
+                if not np.allclose(da, ds, rtol=1e-12) or not np.allclose(da * ba, wanta, rtol=1e-12):
+                    bad("oil density times Bo is not stock-tank oil plus dissolved gas for every entry of a pressure array spanning the bubble point",
+                        dict(T=To, pressures=[float(x) for x in order], api=api, gg=gg, Rsi=rsi, pb=pb),
+                        dict(array=[float(x) for x in da], scalar=[float(x) for x in ds]))
         # ---------------- water
         Tw, pw, s = float(rng.uniform(32, 400)), float(rng.uniform(0, 20000)), float(rng.uniform(0, 25))
         rw = float(water.density_water_McCain(Tw, pw, s))
